@@ -283,15 +283,17 @@ func init() {
 			core := []string{"[-o] [-e]", "-o -e", "[-a] [-o]", "[-a] [-o] [X]", "[-b] [-o] [-e]...", "-a [-b]... [-o]", "[OPTIONS]", "[-ab]"}
 			envSpecs := []string{"[OPTIONS]", "[-ab]", "-a [-b]... [-o]", "[OPTIONS] X"}
 			if c.quick() {
-				us := specUnits("H_swap", append(core, everyNth(all, 32, c.seed)...), []profile{{"n<=2 Lp<=1", map[string]interface{}{"n": 2, "Lp": 1, "env": 0}}}, 1)
-				us = append(us, specUnits("H_swap", envSpecs, []profile{{"n<=2 Lp<=1 env subsets", map[string]interface{}{"n": 2, "Lp": 1, "env": 1}}}, 1)...)
-				return append(us, specUnits("H_swap", append([]string{"[-a] [-o] [X]"}, everyNth(all, 640, c.seed)...), []profile{{"n<=3 Lp<=1", map[string]interface{}{"n": 3, "Lp": 1, "env": 0}}}, 1)...)
+				us := specUnits("H_swap", append(core, everyNth(all, 32, c.seed)...), []profile{{"n<=2 Lp<=1", map[string]interface{}{"n": 2, "Lp": 1, "env": 0, "flagsOnly": 0}}}, 1)
+				us = append(us, specUnits("H_swap", envSpecs, []profile{{"n<=2 Lp<=1 env subsets", map[string]interface{}{"n": 2, "Lp": 1, "env": 1, "flagsOnly": 0}}}, 1)...)
+				us = append(us, specUnits("H_swap", []string{"[OPTIONS]", "[-ab]", "-a... [-b]", "(-a | -b)..."}, []profile{{"flags only n<=4 env subsets", map[string]interface{}{"n": 4, "Lp": 1, "env": 1, "flagsOnly": 1}}}, 1)...)
+				return append(us, specUnits("H_swap", append([]string{"[-a] [-o] [X]"}, everyNth(all, 640, c.seed)...), []profile{{"n<=3 Lp<=1", map[string]interface{}{"n": 3, "Lp": 1, "env": 0, "flagsOnly": 0}}}, 1)...)
 			}
-			us := specUnits("H_swap", append(core, everyNth(all, 8, c.seed)...), []profile{{"n<=3 Lp<=1", map[string]interface{}{"n": 3, "Lp": 1, "env": 0}}}, 1)
-			return append(us, specUnits("H_swap", envSpecs, []profile{{"n<=3 Lp<=1 env subsets", map[string]interface{}{"n": 3, "Lp": 1, "env": 1}}}, 1)...)
+			us := specUnits("H_swap", append(core, everyNth(all, 8, c.seed)...), []profile{{"n<=3 Lp<=1", map[string]interface{}{"n": 3, "Lp": 1, "env": 0, "flagsOnly": 0}}}, 1)
+			us = append(us, specUnits("H_swap", []string{"[OPTIONS]", "[-ab]", "-a... [-b]", "(-a | -b)...", "[-ab]... X"}, []profile{{"flags only n<=5 env subsets", map[string]interface{}{"n": 5, "Lp": 1, "env": 1, "flagsOnly": 1}}}, 1)...)
+			return append(us, specUnits("H_swap", envSpecs, []profile{{"n<=3 Lp<=1 env subsets", map[string]interface{}{"n": 3, "Lp": 1, "env": 1, "flagsOnly": 0}}}, 1)...)
 		},
 		Bounds: func(c *checkCtx) map[string]interface{} {
-			return map[string]interface{}{"items": "n<=3 items, payload 1 symbolic byte; every adjacent pair of occurrences of different options; every spelling incl. folded pairs"}
+			return map[string]interface{}{"items": "n<=2 (quick; n<=3 on a few specs and in thorough) items, payload 1 symbolic byte; n<=4 (thorough 5) flag occurrences with every subset of environment-backed options; every adjacent pair of occurrences of different options; every spelling incl. folded pairs"}
 		},
 		Assumptions: append([]string{"both occurrences precede any `--`"}, commonAssumptions...),
 		Outside:     []string{"more than n occurrences"},
